@@ -190,31 +190,45 @@ theorem poisson_direct_terminates (lam : ℝ) (hl : lam ≤ 16) (s : List ℝ)
   rw [hd]
   exact ⟨n, _, rest, rfl⟩
 
-/-- Gaussian branch (λ > 16), PARTIAL.  Full statement (false for the code as written, see
-    `poisson_gauss_support_fails`): "for every λ > 16 and every script the result is the normal
-    sample x rounded to the nearest integer, clamped at 0".  Proved with the side condition
-    −1 < x + ½ (and < 2³²) under which the unsigned conversion is defined: result = ⌊x + ½⌋₊. -/
-theorem poisson_gauss_partial (lam : ℝ) (hl : 16 < lam) (s : List ℝ) (x : ℝ) (n' : Normal ℝ)
+/-- ★ Gaussian branch (λ > 16), code as repaired in /repo 73ca547
+    (`rounded > 0 ? result_type(rounded) : 0`): the count is the normal sample x rounded to the
+    nearest integer and clamped at 0, i.e. ⌊x + ½⌋₊ — in particular never a wrapped negative.
+    The only hypothesis is that the count fits the 32-bit result type (x + ½ < 2³²; the result
+    type cannot represent more, λ ≲ 4·10⁹). -/
+theorem poisson_gauss_support (lam : ℝ) (hl : 16 < lam) (s : List ℝ) (x : ℝ) (n' : Normal ℝ)
     (rest : List ℝ) (hx : (Poisson.mk' lam).normal.sample s = some (x, n', rest))
-    (hlo : -1 < x + 1 / 2) (hhi : x + 1 / 2 < 2 ^ 32) :
+    (hhi : x + 1 / 2 < 2 ^ 32) :
     ∃ d', (Poisson.mk' lam).sample s = some (⌊x + 1 / 2⌋.toNat, d', rest) := by
-  unfold Poisson.sample
-  have hle : ¬ (Num.le (Poisson.mk' lam).lambda (lambdaThreshold : ℝ) = true) := by
-    unfold Poisson.mk' lambdaThreshold; dist_simp; exact not_le.mpr hl
-  rw [if_neg hle, hx]
-  simp only []
-  dist_simp
-  rw [castU32_of_range _ hlo hhi]
+  rw [poisson_gauss_eval lam hl s x n' rest hx]
+  refine ⟨_, ?_⟩
+  split_ifs with hpos
+  · rw [castU32_of_range _ (by linarith) hhi]
+  · have : ⌊x + 1 / 2⌋ ≤ 0 := Int.floor_nonpos (not_lt.mp hpos)
+    rw [Int.toNat_eq_zero.mpr this]
+
+/-- lower tail: a normal sample with x + ½ ≤ 0 gives the count 0 (no hypothesis on its size) -/
+theorem poisson_gauss_lower_tail (lam : ℝ) (hl : 16 < lam) (s : List ℝ) (x : ℝ) (n' : Normal ℝ)
+    (rest : List ℝ) (hx : (Poisson.mk' lam).normal.sample s = some (x, n', rest))
+    (hlo : x + 1 / 2 ≤ 0) : ∃ d', (Poisson.mk' lam).sample s = some (0, d', rest) := by
+  rw [poisson_gauss_eval lam hl s x n' rest hx, if_neg (not_lt.mpr hlo)]
   exact ⟨_, rfl⟩
 
-/-- ★ negation of the full statement on a concrete witness: at λ = 17 there are canonical
-    uniforms u₁ = ¾, u₂ = e^{−18} ∈ (0,1) for which the Gaussian branch returns a value ≥ 2³¹
-    (the negative normal sample wraps in the unsigned conversion).  Replayed on the real code
-    by tools/checks/c15.py (key `poisson-gaussian-negative`). -/
-theorem poisson_gauss_support_fails :
-    ∃ lam u1 u2 : ℝ, 16 < lam ∧ CanonPos u1 ∧ CanonPos u2 ∧
-      ∃ k d', (Poisson.mk' lam).sample [u1, u2] = some (k, d', []) ∧ 2 ^ 31 ≤ k :=
-  poisson_witness
+/-- the lower tail is reachable by canonical uniforms, and the clamp is what keeps the result in
+    range: at λ = 17, u₁ = ¾, u₂ = e^{−18} ∈ (0,1) the sampler returns 0, while the bare
+    conversion `static_cast<unsigned>(x + ½)` of the code before 73ca547 gives a value ≥ 2³¹
+    for this very sample.  The check replays such scripts on the real code
+    (corpus/C15/witnesses.ops; key `poisson-gaussian-negative` if the wrap reappears). -/
+theorem poisson_gauss_clamp_needed :
+    ∃ lam u1 u2 x : ℝ, 16 < lam ∧ CanonPos u1 ∧ CanonPos u2 ∧
+      (∃ n', (Poisson.mk' lam).normal.sample [u1, u2] = some (x, n', [])) ∧
+      (∃ d', (Poisson.mk' lam).sample [u1, u2] = some (0, d', [])) ∧
+      2 ^ 31 ≤ castU32 (x + 1 / 2) := by
+  obtain ⟨x, n', hx, hlo, hhi⟩ := poisson_witness_sample
+  refine ⟨17, 3 / 4, Real.exp (-18), x, by norm_num, witness_canon.1, witness_canon.2,
+    ⟨n', hx⟩, poisson_gauss_lower_tail 17 (by norm_num) _ x n' [] hx (by linarith), ?_⟩
+  apply castU32_wrap _ _ hhi
+  have : (-(2 : ℝ) ^ 31) ≤ -100 := by norm_num
+  linarith
 
 /-! ## ReciprocalDistribution  [a, b) (bounds may be reversed) -/
 
